@@ -30,7 +30,16 @@ def strip(line):
 
 def workload(ctx, rng, n):
     plain, _ = codecrun.gen_cases(ctx, rng, n, comp_mode=False)
-    comp, _ = codecrun.gen_cases(ctx, rng, n // 2, comp_mode=True)
+    comp, _ = codecrun.gen_cases(ctx, rng, n // 2, comp_mode=True, diff_structure_frac=0.4)     # incl. subsets that cannot be compressed (fallback decision)
+    # small delayed-replication shapes whose subsets differ in counts but not in length (0 and 1: the placeholder keeps the length)
+    for _ in range(max(6, n // 6)):
+        e = rng.choice(ctx.T.pool["code"] + ctx.T.pool["num"])
+        t = [101000, rng.choice([31001, 31001, 31000, 31002]), e]
+        try:
+            subs = [gen.walk(ctx.T, 4, t, (lambda f, c=c: dict(raw=c, af=0) if f["desc"] in gen.FACTORS else gen.choose_value(rng, f))) for c in rng.choice([(0, 1), (1, 0), (0, 1, 0), (1, 1), (0, 0)])]
+            comp.append(dict(ed=4, tmpl=t, subsets=subs, same=False))
+        except gen.Reject:
+            pass
     lines = []
     for c in plain:
         lines.append(gen.case_line(c["ed"], 0, c["tmpl"], c["subsets"]))
